@@ -1,5 +1,6 @@
 import CffiVerif.Model.Call
 import CffiVerif.Generated.ExternPySize
+import CffiVerif.Generated.Primitives
 
 /-
 Model of what happens between a C caller and a Python function installed with
@@ -122,6 +123,29 @@ open CffiVerif.Generated in
 /-- Is an argument of this type stored as a pointer to the caller's object? -/
 def passedByRef (name : String) (isAggregate : Bool) : Bool :=
   isAggregate || ExternPySize.byRefPrims.contains name
+
+/-! ### who is passed by reference: writer (generator) and reader (backend)
+
+The generator decides by model class / primitive name, the backend by `ct_flags`.
+The flags a type carries: `CT_STRUCT` / `CT_UNION` for the `StructOrUnion` classes, and
+for a primitive the `CT_IS_*` flags of its row in the backend's `EPTYPE` table
+(`Generated/Primitives.backendTypes`, regenerated on every run). -/
+
+def classFlags (cls : String) : List String :=
+  if cls = "StructOrUnion" then ["CT_STRUCT", "CT_UNION"] else ["<unknown model class " ++ cls ++ ">"]
+
+open CffiVerif.Generated in
+def primByRefFlags (name : String) : List String :=
+  match Primitives.backendTypes.find? (fun e => e.name = name) with
+  | some e =>
+      let fs := e.flags.filter (fun f => f.startsWith "CT_IS_")
+      if fs.isEmpty then ["<no CT_IS_ flag distinguishes " ++ name ++ ">"] else fs
+  | none => ["<not a backend primitive: " ++ name ++ ">"]
+
+open CffiVerif.Generated in
+/-- The flag set that selects exactly the types the *writer* stores by reference. -/
+def writerByRefFlags : List String :=
+  ExternPySize.byRefPrims.flatMap primByRefFlags ++ ExternPySize.byRefClasses.flatMap classFlags
 
 /-! ### result encoding (`convert_from_object_fficallback`) -/
 
